@@ -24,13 +24,14 @@ def program_line(pid, rec):
     return " ".join(parts) + "\n"
 
 
-def generate(name, constants, report, timeout=1500, simulate=None, depth=None, heap="12g"):
+def generate(name, constants, report, timeout=1500, simulate=None, depth=None, heap="12g", workers=None):
     wd = os.path.join(vlib.BUILD, name)
     os.makedirs(wd, exist_ok=True)
     cfg = os.path.join(wd, name + ".cfg")
     vlib.write_cfg(cfg, constants=constants, invariants=["Refines", "InBounds", "Affine", "TypeOK"], view="VW",
                    constraints=["EmitC"])
-    res = vlib.run_tlc("ViewAlgebra", cfg, name, timeout=timeout, simulate=simulate, depth=depth, heap=heap)
+    kw = {"workers": workers} if workers else {}
+    res = vlib.run_tlc("ViewAlgebra", cfg, name, timeout=timeout, simulate=simulate, depth=depth, heap=heap, **kw)
     report.add_tlc(res)
     return res
 
